@@ -129,6 +129,12 @@ func scannerTokenNames() ([]string, []string, bool) {
 //     rows), exported functions and the anchors (functions the verif hooks name) are kept as calls;
 //   * string building is normalised: a + b, append(b, x...), fmt.Sprintf with only %s verbs, string(x) / []byte(x)
 //     conversions and make([]byte, 0, n) all become concatenations of pieces (adjacent literals merged);
+//   * a search for ONE ASCII byte is strings.IndexByte / LastIndexByte however it is spelled (Index / LastIndex with a
+//     one-character string, IndexRune with an ASCII rune); a character literal and a one-character string are one value;
+//   * indexing a package-level map[string]bool literal whose values are all true, used as a condition, is the set test
+//     `k in {keys}` — the same multi-way test as a switch over k with `return true` cases;
+//   * `for v := E; C; v = E { B }` is `for { v := E; if !C { break }; B }` (sanRotate): the scanner loop written with a
+//     for clause or with an explicit end-of-input return gives the same loop table;
 //   * bytes.Buffer / strings.Builder objects are <membuf> (an in-memory sink whose Write cannot fail), Grow is ignored;
 //   * package-level variables are replaced by their initialiser (composite-literal tables by T1, §T2, …);
 //   * EFFECTS are the method calls on objects (tokenizer, writers, buffers, replacers, policies), in execution order;
@@ -642,7 +648,51 @@ func (r *sanRun) truth(v *sanV) bool {
 			return res != neg
 		}
 	}
+	if v.k == "index" && v.a[0].k == "tab" {
+		// T[k] for a map[string]bool literal whose values are all true is the set test `k in {keys}`: the same multi-way
+		// test as `switch k { case "a", "b": return true }; return false`
+		if keys, ok := r.p.sanTrueSet(v.a[0].s); ok {
+			x := v.a[1]
+			kx, srt := sanKey(x), sanSortPr.r(x)
+			for _, k := range keys {
+				y := sanLit(k)
+				if r.decide(sanCond{id: kx, sort: srt, x: x, y: y, op: "==", k: sanKey(y)}) {
+					return true
+				}
+			}
+			return false
+		}
+	}
 	return r.decide(sanCond{id: sanKey(v), sort: sanSortPr.r(v), x: v, op: "atom"})
+}
+
+// sanTrueSet: package-level `name` is a map[string]bool composite literal with string-literal keys that are all mapped
+// to true (a set; an absent key reads as false): its keys, sorted.
+func (p *sanPkg) sanTrueSet(name string) ([]string, bool) {
+	cl, ok := p.vars[name].(*ast.CompositeLit)
+	if !ok {
+		return nil, false
+	}
+	mt, ok := cl.Type.(*ast.MapType)
+	if !ok || src(mt.Key) != "string" || src(mt.Value) != "bool" {
+		return nil, false
+	}
+	keys := []string{}
+	seen := map[string]bool{}
+	for _, e := range cl.Elts {
+		kv, ok := e.(*ast.KeyValueExpr)
+		if !ok {
+			return nil, false
+		}
+		k, ok := unq(kv.Key)
+		if v, isID := kv.Value.(*ast.Ident); !ok || !isID || v.Name != "true" || seen[k] {
+			return nil, false
+		}
+		seen[k] = true
+		keys = append(keys, k)
+	}
+	sort.Strings(keys)
+	return keys, len(keys) > 0
 }
 
 func (r *sanRun) cond(e ast.Expr, f *sanFrame) bool {
@@ -890,6 +940,9 @@ func (r *sanRun) call(ce *ast.CallExpr, f *sanFrame) *sanV {
 				}
 				args := r.evals(ce.Args, f)
 				full := path + "." + fun.Sel.Name
+				if name := sanByteSearch(path, fun.Sel.Name, args); name != "" {
+					return &sanV{k: "pcall", p: path, s: name, a: args}
+				}
 				if full == "fmt.Sprintf" && len(args) > 0 && args[0].k == "lit" {
 					if v := sanSprintf(args[0].s, args[1:]); v != nil {
 						return v
@@ -918,6 +971,22 @@ func (r *sanRun) call(ce *ast.CallExpr, f *sanFrame) *sanV {
 		return r.event(v, fun.Sel.Name)
 	}
 	return r.failf("call not understood: %s", strings.Join(strings.Fields(src(ce)), " "))
+}
+
+// sanByteSearch: searching a string for ONE ASCII byte is the same search however it is spelled — strings.Index(s, "c"),
+// strings.IndexRune(s, 'c') and strings.IndexByte(s, 'c') (character and string literals are the same value here), and
+// likewise strings.LastIndex / LastIndexByte; the canonical name is the …Byte one.  "" when the call is not of that kind.
+func sanByteSearch(path, name string, args []*sanV) string {
+	if (path != "strings" && path != "bytes") || len(args) != 2 || args[1].k != "lit" || len(args[1].s) != 1 || args[1].s[0] >= 0x80 {
+		return ""
+	}
+	switch name {
+	case "Index", "IndexRune", "IndexByte":
+		return "IndexByte"
+	case "LastIndex", "LastIndexByte":
+		return "LastIndexByte"
+	}
+	return ""
 }
 
 // sanSprintf: fmt.Sprintf with %s verbs only is a concatenation.
@@ -1292,7 +1361,42 @@ func sanEnum(mk func(dec []bool) *sanRun, body func(r *sanRun) (string, *sanV)) 
 	return paths, ""
 }
 
+// sanRotate: `for v := E; C; v = E { B }` (the same E before the loop and after every iteration) is
+// `for { v := E; if !C { break }; B }` — a `continue` in B re-evaluates E and then C in both.  nil when x is not of that form.
+func sanRotate(x *ast.ForStmt) *ast.ForStmt {
+	in, ok1 := x.Init.(*ast.AssignStmt)
+	po, ok2 := x.Post.(*ast.AssignStmt)
+	if !ok1 || !ok2 || x.Cond == nil || len(in.Lhs) != 1 || len(in.Rhs) != 1 || len(po.Lhs) != 1 || len(po.Rhs) != 1 {
+		return nil
+	}
+	if (in.Tok != token.DEFINE && in.Tok != token.ASSIGN) || po.Tok != token.ASSIGN {
+		return nil
+	}
+	a, okA := in.Lhs[0].(*ast.Ident)
+	b, okB := po.Lhs[0].(*ast.Ident)
+	if !okA || !okB || a.Name != b.Name || a.Name == "_" || src(in.Rhs[0]) != src(po.Rhs[0]) {
+		return nil
+	}
+	mentions := false
+	ast.Inspect(in.Rhs[0], func(n ast.Node) bool {
+		if id, ok := n.(*ast.Ident); ok && id.Name == a.Name {
+			mentions = true
+		}
+		return true
+	})
+	if mentions {
+		return nil
+	}
+	leave := &ast.IfStmt{Cond: &ast.UnaryExpr{Op: token.NOT, X: &ast.ParenExpr{X: x.Cond}},
+		Body: &ast.BlockStmt{List: []ast.Stmt{&ast.BranchStmt{Tok: token.BREAK}}}}
+	body := append([]ast.Stmt{in, leave}, x.Body.List...)
+	return &ast.ForStmt{For: x.For, Body: &ast.BlockStmt{Lbrace: x.Body.Lbrace, List: body, Rbrace: x.Body.Rbrace}}
+}
+
 func (r *sanRun) loop(x *ast.ForStmt, f *sanFrame, rest []ast.Stmt) sanSig {
+	if rot := sanRotate(x); rot != nil {
+		x = rot
+	}
 	f.env.push()
 	defer f.env.pop()
 	if x.Init != nil {
@@ -1895,7 +1999,7 @@ func extractSan() {
 	web := sanLoadPkg("pkg/server/web")
 	web.elideRe = true // urlRE is a parameter of the model (its matches are oracle fields), the expression is not pinned here
 	g.def("textSem", "List String", strList(web.sanPrint("TextToHTML")), "semantic summary of TextToHTML (helpers.go); F1 is the function applied to each match of urlRE")
-	g.def("wrapURLSem", "List String", strList(web.sanPrint("WrapURL")), "semantic summary of WrapURL (helpers.go), unexported helpers inlined; T1 is the scheme table")
+	g.def("wrapURLSem", "List String", strList(web.sanPrint("WrapURL")), "semantic summary of WrapURL (helpers.go), unexported helpers inlined; the scheme test is a set test (`in {…}`) whether the code uses a set literal or a switch")
 	var repl, partials, wrapLits, delims []string
 	replOK, delimOK := false, false
 	web.sanAll("TextToHTML", func(v *sanV) {
@@ -1965,12 +2069,29 @@ func extractSan() {
 	g.def("wrapMatchLits", "List (List Nat)", sanBytesList(partials), "the constants the match function (F1 of textSem) compares the tail of a match with, sorted, as bytes")
 	g.def("wrapURLLits", "List (List Nat)", sanBytesList(wrapLits), "WrapURL's anchor: the literal arguments of strings.ReplaceAll (old, new), then the literal pieces of the returned concatenation in order, as bytes")
 	g.def("linkableLits", "List (List Nat)", sanBytesList(delims), "the literal second argument of strings.IndexAny in WrapURL (helpers inlined), as bytes")
+	// the scheme set: the constants the one strings.ToLower(…) subject of WrapURL's multi-way tests is compared with (a
+	// map[string]bool set literal indexed with it and a switch over it are the same test, see sanRun.truth)
 	var sk []string
-	tname, ok = sanUniqueTable(web, "WrapURL")
-	if ok {
-		sk, ok = web.sanTable(tname)
+	subjects, schemes := map[string]bool{}, map[string]bool{}
+	if s := web.sum("WrapURL"); s.fail == "" {
+		for _, p := range s.paths {
+			for _, c := range p.conds {
+				if c.op == "==" && c.x.k == "pcall" && c.x.p == "strings" && c.x.s == "ToLower" {
+					subjects[c.id] = true
+					if c.y.k != "lit" {
+						subjects["?"+c.k] = true // compared with something that is not a literal: not a fixed set
+					} else if !schemes[c.y.s] {
+						schemes[c.y.s] = true
+						sk = append(sk, c.y.s)
+					}
+				}
+			}
+		}
 	}
-	g.def("linkSchemes", "Option (List (List Nat))", optBytesList(sk, ok), "keys of the one map literal WrapURL consults (T1 of wrapURLSem: linkSchemes of helpers.go), sorted, as bytes")
+	sort.Strings(sk)
+	g.def("linkSchemes", "Option (List (List Nat))", optBytesList(sk, len(subjects) == 1 && len(sk) > 0),
+		"the scheme set of WrapURL (helpers inlined): the string constants the one strings.ToLower(…) value it tests is compared with — the keys of a map[string]bool "+
+			"set literal indexed with it, or the case values of a switch over it — sorted, as bytes")
 }
 
 // sanFnValues: the functions used as values in the summary of root.
